@@ -264,6 +264,37 @@ pub fn check_point(root: &Path, n: usize, h1: u64, h2: u64, rep: &mut Report) ->
     if !matches!(&r, Ok(Some(b)) if b == b"N") {
         bad.push(("stack-get".into(), format!("stacked Cache does not find the entry: {:?}", r)));
     }
+    // (4') the generic builder entry points (`writer`, `reader`: sharded whenever the shard count is >= 2, whatever
+    // the capacity) agree with everybody else on where the key lives
+    if n >= 2 {
+        for cap in [n.saturating_sub(1).max(1), 1usize, 1000] {
+            clean(root);
+            let generic = kismet_cache::CacheBuilder::new().writer(root, n, cap).take().build();
+            shim::passthrough(|| std::fs::write(&src, b"G").unwrap());
+            let (r, trace) = participant(|| generic.put(key, &src));
+            rep.transitions += trace.len() as u64;
+            let in1 = world::lstat(&d1.join(name)).is_some();
+            let in2 = world::lstat(&d2.join(name)).is_some();
+            if r.is_err() || !(in1 ^ in2) {
+                bad.push((
+                    "generic-writer-location".into(),
+                    format!("CacheBuilder::writer(dir, {}, {}).put answered {:?} and left the entry in primary={} secondary={} (a flat file at the top level: {})", n, cap, r.as_ref().map(|_| ()).map_err(|e| e.kind()), in1, in2, world::lstat(&root.join(name)).is_some()),
+                ));
+            }
+            let peer = kismet_cache::sharded::Cache::new(root.to_path_buf(), n, 1000);
+            let (r, _t) = participant(|| peer.get(key).map(|o| o.map(|mut f| read_all(&mut f))));
+            if !matches!(&r, Ok(Some(b)) if b == b"G") {
+                bad.push(("generic-writer-location".into(), format!("an explicitly sharded peer does not find what CacheBuilder::writer(dir, {}, {}) stored: {:?}", n, cap, r.map(|o| o.map(|b| b.len())))));
+            }
+        }
+        clean(root);
+        world::plant(&d2.join(name), b"R", 0o444, 1_000_000_000, 2_000_000_000);
+        let generic_reader = kismet_cache::CacheBuilder::new().reader(root, n).take().build();
+        let (r, _t) = participant(|| generic_reader.get(key).map(|o| o.map(|mut f| read_all(&mut f))));
+        if !matches!(&r, Ok(Some(b)) if b == b"R") {
+            bad.push(("generic-reader-location".into(), format!("CacheBuilder::reader(dir, {}) does not find the entry in its secondary shard: {:?}", n, r.map(|o| o.map(|b| b.len())))));
+        }
+    }
     // (5) a candidate location is obstructed (a directory sits under the key's name in one of its two shards):
     // whatever set/put answer, nothing is ever stored anywhere but directly inside the two candidate shards
     for obstructed in [&d2, &d1] {
